@@ -58,6 +58,18 @@ def shape(e: ast.AST, vals: str, guard_len, idx_dims: dict):
             return ("SEQ", "strided")
         if isinstance(e.slice, ast.Slice):
             lo, hi = e.slice.lower, e.slice.upper
+            # values[i*A:(i+1)*B] with A != B: the block width and the block stride disagree
+            def _mult(x):
+                if isinstance(x, ast.BinOp) and isinstance(x.op, ast.Mult):
+                    for a_, b_ in ((x.left, x.right), (x.right, x.left)):
+                        if isinstance(b_, ast.Attribute):
+                            return a_, norm(b_)
+                return None, None
+            la, lw = _mult(lo) if lo is not None else (None, None)
+            ha, hw = _mult(hi) if hi is not None else (None, None)
+            if lw and hw and lw != hw and isinstance(la, ast.Name) and isinstance(ha, ast.BinOp) and isinstance(ha.op, ast.Add) \
+                    and any(isinstance(z, ast.Name) and z.id == la.id for z in (ha.left, ha.right)):
+                return ("SEQ", f"ragged:{lw}/{hw}")
             # values[i*m:(i+1)*m]
             txt = norm(e.slice)
             if "self._m_tasks" in txt and "self._n_algorithms" not in txt:
@@ -132,6 +144,10 @@ def is_table(sh) -> tuple:
     if row[0] == "SEQ":
         if row[1] == "strided":
             return False, "each row is a strided slice of the tuple (every k-th entry): the per-pair modes are read transposed"
+        if str(row[1]).startswith("ragged:"):
+            a_, b_ = row[1][7:].split("/")
+            return False, (f"row k starts at k * {a_} but ends at (k + 1) * {b_}: the rows overlap or run short unless the two "
+                           f"counts are equal, pairs run in a neighbouring pair's mode")
         if row[1] != "m":
             return False, f"each row is a sequence of {row[1]} modes, not one per task"
         return True, ""
@@ -503,7 +519,8 @@ def _quantified(e, fnode):
         q = _quantified(e.operand, fnode)
         if q is None:
             return None
-        return ("forall-good" if q[0] == "exists-bad" else "exists-bad", q[1])
+        flip = {"exists-bad": "forall-good", "forall-good": "exists-bad", "exists-good": "forall-bad", "forall-bad": "exists-good"}
+        return (flip[q[0]], q[1])
     if isinstance(e, ast.Compare) and len(e.ops) == 1 and isinstance(e.left, ast.Call) and isinstance(e.left.func, ast.Name) \
             and e.left.func.id == "len" and len(e.left.args) == 1 and isinstance(e.comparators[0], ast.Constant) \
             and e.comparators[0].value == 0 and isinstance(e.ops[0], (ast.Gt, ast.NotEq)):
@@ -530,6 +547,10 @@ def _quantified(e, fnode):
                 return ("forall-good", cov)
             if e.func.id == "any" and pol == -1:
                 return ("exists-bad", cov)
+            if e.func.id == "any" and pol == +1:
+                return ("exists-good", cov)
+            if e.func.id == "all" and pol == -1:
+                return ("forall-bad", cov)
             return None
         return None
     # truthiness of the list of offending entries
@@ -579,8 +600,10 @@ def _check_modes_verdict(cm) -> tuple:
     if q is None:
         return "undecided", f"the rejection test `{norm(p.test, 60)}` is not understood"
     kind, cov = q
+    if kind == "forall-bad":
+        return "bad", "the table is rejected only when *every* entry is unknown: one valid mode lets unknown ones through"
     if kind != "exists-bad":
-        return "bad", "the table is rejected when every entry is a known mode"
+        return "bad", "the table is rejected when it holds known modes"
     if cov == "part":
         return "bad", "only a part of the table (a subscript of self._modes) is examined"
     if cov != "all":
